@@ -221,6 +221,10 @@ pub struct Exec {
     pub progress: u64,
     progress_at_last_yield: u64,
     idle_yields: u32,
+    idle_reads: u32,
+    progress_at_last_read: u64,
+    /// consecutive decisions that kept the same task running although another one could run
+    run_len: u32,
 }
 
 thread_local! {
@@ -316,6 +320,9 @@ impl Exec {
             progress: 0,
             progress_at_last_yield: 0,
             idle_yields: 0,
+            idle_reads: 0,
+            progress_at_last_read: 0,
+            run_len: 0,
         };
         if let Policy::Pct(d) = e.cfg.policy {
             if e.script.is_none() {
@@ -605,6 +612,23 @@ impl Exec {
                 best
             }
         };
+        // starvation guard: every policy is fair in the limit. A task that has kept the processor for 3000 decisions
+        // in a row although another task could run (a loop in the system under test that never yields, e.g. a
+        // deadline-bounded busy wait, under strict priorities) is preempted, as any real scheduler would do.
+        let mut c = c;
+        if c == cur && !must_leave && cands.len() > 1 {
+            self.run_len += 1;
+            if self.run_len > 3000 {
+                c = *cands.iter().find(|&&x| x != cur).unwrap();
+                self.run_len = 0;
+                if let Policy::Pct(_) = self.cfg.policy {
+                    self.low_prio -= 1;
+                    self.tasks[cur].prio = self.low_prio;
+                }
+            }
+        } else {
+            self.run_len = 0;
+        }
         self.ts.push(c as u8);
         self.log(0x7000_0000_0000_0000 ^ c as u64);
         Some(c)
@@ -861,6 +885,19 @@ pub fn sleep_ns(ns: u64) {
 /// the simulated clock as read by the system under test (advances it)
 pub fn now_ns() -> u64 {
     let Some(e) = ex() else { return 0 };
+    // a task that keeps reading the clock while nobody changes shared state is busy-waiting for a deadline: like idle
+    // yields, idle clock reads make time run faster (doubling every 16 reads), so that a deadline-bounded busy wait
+    // without any yield ends within the decision bound whatever the duration. Any monotone clock is a legal clock.
+    if e.progress == e.progress_at_last_read {
+        e.idle_reads += 1;
+    } else {
+        e.idle_reads = 0;
+        e.progress_at_last_read = e.progress;
+    }
+    let sh = (e.idle_reads / 16).min(20);
+    if sh > 0 {
+        e.clock_ns = e.clock_ns.saturating_add(1_000u64 << sh);
+    }
     match e.cfg.time {
         TimePolicy::Tick => e.clock_ns += 1_000,
         TimePolicy::Coarse => {
